@@ -138,7 +138,7 @@ func checkC11(c *Check) {
 }
 
 func checkC05(c *Check) {
-	c.Explain = "R-ast-semantics and R-print-semantics (E5): the instantiated source of tokens.AST and of the node printer is evaluated by the Go-subset interpreter (nil dereference and bounds errors reported as panics, anything unmodelled as undecided) on the post-order token list of every derivation shape of at most 5 nodes (thorough: 6) — leaves of width 0 or 1, optional gaps before, between and after children, parent and child with equal spans — and the returned node graph / printed text is compared with the tree of non-empty tokens (children directly nested, in input order; one line per node in pre-order, indented by depth, rule name and the quoted runes [begin,end) of a text with multi-byte runes). AST() touches offsets only through comparisons, so each shape stands for all token lists with the same order pattern of bounds. Structural rules on the 16 AST-enabled instantiations and peg.peg.go: R-rune (node.print quotes string([]rune(buffer)[n.begin:n.end]); no string is indexed by an offset anywhere in the runtime), R-route (PrintSyntaxTree/WriteSyntaxTree/PrettyPrintSyntaxTree print exactly the tree returned by AST(), with the parser's own Buffer, naming each node by rul3s[its own pegRule]), R-adopt-condition (the adoption test decided over all orderings of the four offsets it compares). NOT decided: derivations larger than the bound (no induction over depth/width)."
+	c.Explain = "R-ast-semantics and R-print-semantics (E5): the instantiated source of tokens.AST and of the node printer is evaluated by the Go-subset interpreter (nil dereference and bounds errors reported as panics, anything unmodelled as undecided) on the post-order token list of every derivation shape of at most 5 nodes (thorough: 6) — leaves of width 0 or 1, optional gaps before, between and after children, parent and child with equal spans — plus parents of 9 to 130 siblings (first child at the parent's begin or behind it, empty tokens between siblings, alone or under a root) and chains 12, 70 and 300 deep, and the returned node graph / printed text is compared with the tree of non-empty tokens (children directly nested, in input order; one line per node in pre-order, indented by depth, rule name and the quoted runes [begin,end) of a text with multi-byte runes). AST() touches offsets only through comparisons, so each shape stands for all token lists with the same order pattern of bounds. Structural rules on the 16 AST-enabled instantiations and peg.peg.go: R-rune (node.print quotes string([]rune(buffer)[n.begin:n.end]); no string is indexed by an offset anywhere in the runtime), R-route (PrintSyntaxTree/WriteSyntaxTree/PrettyPrintSyntaxTree print exactly the tree returned by AST(), with the parser's own Buffer, naming each node by rul3s[its own pegRule]), R-adopt-condition (the adoption test decided over all orderings of the four offsets it compares). NOT decided: derivations outside the small scope and the listed wide and deep families (no induction over depth/width)."
 	c.Assume = []string{"the token list is the post-order record of the derivation (C03)"}
 	c.Trusted = []string{"text/template/parse", "go/types, go/ssa (x/tools v0.50.0)", "interp.go"}
 	forEachRuntime(c, func(a *aggregator, v *rtView) {
